@@ -419,6 +419,36 @@ def falsify_evolve(rnd, gen, budget):
 
 
 # ------------------------------------------------------------------------------------------------
+def degenerate_cap(split_matrix):
+    """the bond cap binds exactly where the spectrum is degenerate: the kept dimension must still be <= max_rank"""
+    from emu_mps import MPS
+    for diag, rank in (([1.0, 2.0, 2.0, 3.0], 2), ([1.0, 1.0], 1), ([0.5, 0.5, 0.5, 0.5], 2), ([1.0, 3.0, 3.0, 3.0], 1),
+                       ([2.0, 2.0, 2.0], 2)):
+        for right in (True, False):
+            m = torch.diag(torch.tensor(diag, dtype=torch.complex128))
+            left, rgt = split_matrix(m, 1e-12, rank, right, False)
+            inner = left.shape[1]
+            if inner > rank or rgt.shape[0] != inner:
+                return (f"split_matrix(diag({diag}), max_error=1e-12, max_rank={rank}, orth_center_right={right}) keeps "
+                        f"inner dimension {inner} > max_rank {rank} (degenerate singular values at the cap)")
+    # GHZ state on 4 qubits, bond cap 1: every bond has two equal Schmidt values
+    n = 4
+    f = []
+    for k in range(n):
+        t = torch.zeros(1 if k == 0 else 2, 2, 1 if k == n - 1 else 2, dtype=torch.complex128)
+        for b in range(2):
+            t[0 if k == 0 else b, b, 0 if k == n - 1 else b] = 1.0
+        f.append(t)
+    f[0] = f[0] / (2 ** 0.5)
+    for cap in (1,):
+        mps = MPS([t.clone() for t in f], max_bond_dim=cap, precision=1e-8, num_gpus_to_use=0, eigenstates=("r", "g"))
+        mps.truncate()
+        bonds = [t.shape[2] for t in mps.factors[:-1]]
+        if max(bonds) > cap:
+            return f"GHZ state on {n} qubits, max_bond_dim={cap}: bond dimensions after truncate() are {bonds}"
+    return None
+
+
 def main():
     rec = json.load(open(sys.argv[1]))
     ob = rec["obligation"]
@@ -447,6 +477,10 @@ def main():
         print("NOT-REPRODUCED: 20000 random eigenvalue lists satisfy index range and error budget")
         return 0
     if "split_matrix" in ob:
+        bad = degenerate_cap(split_matrix)
+        if bad:
+            print("REPRODUCED: " + bad)
+            return 1
         for t in range(3000):
             r, c = rnd.randint(1, 6), rnd.randint(1, 6)
             m = torch.randn(r, c, dtype=torch.complex128) * rnd.choice([1e-3, 1.0])
@@ -486,6 +520,11 @@ def main():
                 return 1
         print("NOT-REPRODUCED: 3000 random matrices satisfy shape, cap, error-budget and isometry clauses")
         return 0
+    # ---- exactly degenerate spectra at the rank cap (random matrices never have them) -----------------
+    bad = degenerate_cap(split_matrix)
+    if bad:
+        print("REPRODUCED: " + bad)
+        return 1
     # ---- MPS level: the property-level falsifier, most relevant operation first -----------------
     plan = [("truncate_impl", lambda: falsify_truncate_impl(rnd, gen, 1000)),
             ("MPS.truncate", lambda: falsify_mps_truncate(rnd, gen, 1000)),
